@@ -2,5 +2,5 @@ SPECIFICATION Spec
 CONSTANTS
     MaxCur = 3
     MaxRel = 3
-INVARIANTS CodedConfined
+INVARIANTS AgreeDotInCurrent
 CHECK_DEADLOCK FALSE
